@@ -72,9 +72,30 @@ func ResetPools() {
 	PoolStats.Gets, PoolStats.Hits, PoolStats.Miss, PoolStats.Steal, PoolStats.Poison, PoolStats.Drops = 0, 0, 0, 0, 0, 0
 }
 
+// QuietPool is Pool without a preemption point per operation (pools hit once
+// per assembled instruction would otherwise dominate every schedule).
+type QuietPool struct{ P Pool }
+
+//go:norace
+func (q *QuietPool) Get() interface{} { return q.P.get() }
+
+//go:norace
+func (q *QuietPool) Put(x interface{}) { q.P.put(x) }
+
 //go:norace
 func (p *Pool) Get() interface{} {
 	Yield(-7)
+	return p.get()
+}
+
+//go:norace
+func (p *Pool) Put(x interface{}) {
+	Yield(-8)
+	p.put(x)
+}
+
+//go:norace
+func (p *Pool) get() interface{} {
 	p.register()
 	PoolStats.Gets++
 	t := PoolTape
@@ -111,8 +132,7 @@ func (p *Pool) Get() interface{} {
 }
 
 //go:norace
-func (p *Pool) Put(x interface{}) {
-	Yield(-8)
+func (p *Pool) put(x interface{}) {
 	p.register()
 	if x == nil {
 		return
